@@ -304,12 +304,14 @@ const (
 var sampleTime = time.Unix(1700000000, 0)
 
 func sampleAttribute(k int) kmip.Attribute {
-	switch k % 3 {
+	switch k % 4 {
 	case 0:
 		return kmip.Attribute{AttributeName: kmip.AttributeNameState, AttributeValue: kmip.StateActive}
 	case 1:
 		idx := int32(1)
 		return kmip.Attribute{AttributeName: kmip.AttributeNameName, AttributeIndex: &idx, AttributeValue: kmip.Name{NameValue: "n", NameType: kmip.NameTypeUninterpretedTextString}}
+	case 3:
+		return kmip.Attribute{AttributeName: kmip.AttributeNameCryptographicUsageMask, AttributeValue: kmip.CryptographicUsageEncrypt | kmip.CryptographicUsageDecrypt}
 	}
 	return kmip.Attribute{AttributeName: "x-custom", AttributeValue: "v"}
 }
